@@ -106,6 +106,11 @@ func (c *container) addKv(key string, val string) ([]string, bool) {
 	defer c.lock.Unlock()
 
 	c.dirty.Set(true)
+	// 同一个 key 以另一个值再次出现（例如重放了该 key 更早一次注册的事件）时，
+	// 先解除它与旧值的关联，否则旧值会一直残留。
+	if old, ok := c.mapping[key]; ok && old != val {
+		c.doRemoveKey(key)
+	}
 	keys := c.values[val]
 	previous := append([]string(nil), keys...)
 	early := len(keys) > 0
